@@ -84,6 +84,8 @@ def layout_plan(stmts, rng):
             cut += [k + 1 for k in cut if t[k + 1] != " "]
             if cut:
                 d["cut"] = rng.choice(cut)
+                # comment and blank lines may stand between an initial line and its continuation
+                d["between"] = [rng.choice(["inside a continued statement", ""]) for _ in range(rng.choice([0, 0, 1, 2]))]
         elif rng.random() < 0.15 and kind != "plain":
             d["inline"] = rng.choice([" ! note", " !x"])
         plan.append(d)
@@ -104,11 +106,14 @@ def render(stmts, plan, rng, fixed):
             head = ((lab + " ") if lab else "") + "  " + " " * rng.choice([0, 1, 2])
         if d["cut"] is not None:
             a, b = t[:d["cut"]], t[d["cut"]:]
+            between = d.get("between", [])
             if fixed:
                 lines.append(head + a)
+                lines += [("C " + x if x else "") for x in between]
                 lines.append("     " + rng.choice("&1+$.!*") + b)
             else:
                 lines.append(head + a + " &")
+                lines += [("  ! " + x if x else "") for x in between]
                 lines.append("     " + rng.choice(["", "&"]) + b)
         else:
             lines.append(head + t + (d["inline"] or ""))
